@@ -160,13 +160,16 @@ func (in *c13Interp) gsfaDir(nIdx, nLog, nMan int) string {
 	return d
 }
 
-func c13CompactGetter(kind string, r indexes.ReaderAtCloser) (c13Getter, func(), error) {
+// prefetch: put the reader in Prefetch(true) mode, as NewEpochFromConfig does for indexes opened over HTTP
+// (cid-to-offset-and-size, slot-to-cid, sig-to-cid; the pubkey index has the same switch).
+func c13CompactGetter(kind string, r indexes.ReaderAtCloser, prefetch bool) (c13Getter, func(), error) {
 	switch kind {
 	case "cid2oas":
 		idx, err := indexes.OpenWithReader_CidToOffsetAndSize(r)
 		if err != nil {
 			return nil, nil, err
 		}
+		idx.Prefetch(prefetch)
 		return func(key []string) string {
 			c, err := cid.Cast(zz.Unhex(key[0]))
 			if err != nil {
@@ -183,6 +186,7 @@ func c13CompactGetter(kind string, r indexes.ReaderAtCloser) (c13Getter, func(),
 		if err != nil {
 			return nil, nil, err
 		}
+		idx.Prefetch(prefetch)
 		return func(key []string) string {
 			c, err := idx.Get(binary.LittleEndian.Uint64(zz.Unhex(key[0])))
 			if err != nil {
@@ -195,6 +199,7 @@ func c13CompactGetter(kind string, r indexes.ReaderAtCloser) (c13Getter, func(),
 		if err != nil {
 			return nil, nil, err
 		}
+		idx.Prefetch(prefetch)
 		return func(key []string) string {
 			var sig solana.Signature
 			copy(sig[:], zz.Unhex(key[0]))
@@ -209,6 +214,7 @@ func c13CompactGetter(kind string, r indexes.ReaderAtCloser) (c13Getter, func(),
 		if err != nil {
 			return nil, nil, err
 		}
+		idx.Prefetch(prefetch)
 		return func(key []string) string {
 			oas, err := idx.Get(solana.PublicKeyFromBytes(zz.Unhex(key[0])))
 			if err != nil {
@@ -276,30 +282,32 @@ func (in *c13Interp) openAt(kind string, n int, record bool) *c13Open {
 	switch kind {
 	case "cid2oas", "slot2cid", "sig2cid", "pubkey2oas":
 		p := in.trunc(kind, n)
-		// A: the server's way — openIndexStorage (mmap) + OpenWithReader_X
-		if rac, err := openIndexStorage(in.ctx, p); err != nil {
-			add(c13Const("err"), nil)
-		} else if g, cl, err := c13CompactGetter(kind, rac); err != nil {
-			rac.Close()
-			add(c13Const("err"), nil)
-		} else {
-			add(g, cl)
-		}
-		// B: plain io.ReaderAt
-		if g, cl, err := c13CompactGetter(kind, c13NewRac(data, rec)); err != nil {
-			add(c13Const("err"), nil)
-		} else {
-			add(g, cl)
-		}
-		if kind == "pubkey2oas" {
-			// C: *os.File (what NewGsfaReader uses)
-			if f, err := os.Open(p); err != nil {
+		for _, prefetch := range []bool{false, true} {
+			// A: the server's way — openIndexStorage (mmap) + OpenWithReader_X
+			if rac, err := openIndexStorage(in.ctx, p); err != nil {
 				add(c13Const("err"), nil)
-			} else if g, cl, err := c13CompactGetter(kind, f); err != nil {
-				f.Close()
+			} else if g, cl, err := c13CompactGetter(kind, rac, prefetch); err != nil {
+				rac.Close()
 				add(c13Const("err"), nil)
 			} else {
 				add(g, cl)
+			}
+			// B: plain io.ReaderAt
+			if g, cl, err := c13CompactGetter(kind, c13NewRac(data, rec), prefetch); err != nil {
+				add(c13Const("err"), nil)
+			} else {
+				add(g, cl)
+			}
+			if kind == "pubkey2oas" {
+				// C: *os.File (what NewGsfaReader uses)
+				if f, err := os.Open(p); err != nil {
+					add(c13Const("err"), nil)
+				} else if g, cl, err := c13CompactGetter(kind, f, prefetch); err != nil {
+					f.Close()
+					add(c13Const("err"), nil)
+				} else {
+					add(g, cl)
+				}
 			}
 		}
 	case "sigexists":
@@ -964,7 +972,7 @@ func (g *c13Gen) epochCase(name string, o genOpts, maxKeys, exhaustLimit, nRando
 		}
 		in.reads = nil
 		for _, k := range live { // read boundaries of the index part
-			if rac, cl, err := c13CompactGetter("gsfa-idx", c13NewRac(gidx, &in.reads)); err == nil {
+			if rac, cl, err := c13CompactGetter("gsfa-idx", c13NewRac(gidx, &in.reads), false); err == nil {
 				rac(k)
 				cl()
 			}
